@@ -150,16 +150,31 @@ def build(spec):
     return _synthetic(spec)
 
 
+CONTAINERS = ["dict", "dataframe", "dataframe-offset-index", "dataframe-permuted-index", "dict-int-pressure", "dataframe-int-pressure", "dataframe-reordered-columns"]
+
+
 def as_container(tab, container):
-    """dict of arrays (default) or pandas DataFrame."""
-    if container in ("dataframe", "dataframe-offset-index"):
+    """dict of arrays (default) or pandas DataFrame, in the variants a caller's table comes in:
+
+    row labels that are not 0..n-1 (a table filtered or sliced earlier), row labels that are a permutation of 0..n-1
+    (sort_values / iloc[::-1] without reset_index; the rows themselves keep their order), whole-number pressures held
+    in an integer column (as read from a CSV; only when the pressures are whole numbers), columns in another order."""
+    cols = {c: np.array(v, copy=True) for c, v in tab.items()}
+    if container.endswith("int-pressure") and "pressure" in cols and np.all(cols["pressure"] == np.rint(cols["pressure"])):
+        cols["pressure"] = cols["pressure"].astype(np.int64)
+    if container.startswith("dataframe"):
         import pandas as pd
 
-        df = pd.DataFrame({c: tab[c] for c in tab})
-        if container == "dataframe-offset-index":  # row labels that are not 0..n-1 (a table filtered or sliced earlier)
+        names = list(cols)
+        if container == "dataframe-reordered-columns":
+            names = names[::-1]
+        df = pd.DataFrame({c: cols[c] for c in names})
+        if container == "dataframe-offset-index":
             df.index = np.arange(len(df)) * 3 + 100
+        elif container == "dataframe-permuted-index":
+            df.index = np.arange(len(df))[::-1]
         return df
-    return {c: np.array(v, copy=True) for c, v in tab.items()}
+    return cols
 
 
 def constant_diffusivity(spec):
